@@ -50,7 +50,12 @@ LinkOf(F,t) ==  \* link containing absolute position t (last link when t = total
 B(F,p) == LET cand == { x \in UNION { Rng(F.pb[i]) \cup {F.links[i].start} : i \in 1..F.nl } : x < p }
           IN IF cand = {} THEN 0 ELSE Max(cand)
 HrAllowed(F) == \A i \in 1..F.nl : F.links[i].hrok
-Strict(s,F) == s.open /\ ~F.damaged /\ ~s.faulted     \* the full promise applies
+Strict(s,F) == s.open /\ ~F.damaged /\ ~s.faulted /\ ~s.recov     \* the full promise applies
+\* Half rate delivers ceil(N/2) samples per link and moves the position by two per sample.  When a link other than
+\* the last has odd length these two statements cannot both be exact at the link change (the cursor is one ahead
+\* until the next granule position arrives), so on such files positions are only held to +-1 in half-rate mode.
+HsExact(F) == \A i \in 1..F.nl : (i < F.nl => F.links[i].N % 2 = 0) /\ F.links[i].start % 2 = 0
+Loose(s,F) == s.hs = 1 /\ ~HsExact(F)
 
 (* ---------------- Open ---------------- *)
 ChkOpen(s,F,e) ==
@@ -77,7 +82,10 @@ ChkOpen(s,F,e) ==
 
 NxtOpen(s,F,e) ==
   IF e.ret = 0
-  THEN [s EXCEPT !.open = TRUE, !.f = e.f, !.sk = (e.sk = 1), !.pos = IF e.tell >= 0 THEN e.tell ELSE -1, !.hs = 0, !.lap = 0, !.closes = e.cl]
+  THEN [s EXCEPT !.open = TRUE, !.f = e.f, !.sk = (e.sk = 1), !.pos = IF e.tell >= 0 THEN e.tell ELSE -1, !.hs = 0, !.lap = 0, !.closes = e.cl,
+                 \* a premature end-of-data (zero read) during a successful open is indistinguishable from a shorter file:
+                 \* the handle legitimately describes a truncated view, which is not held to the full file
+                 !.recov = (s.faulted /\ s.fk = 2 /\ e.ff > 0)]
   ELSE [s EXCEPT !.open = FALSE, !.f = e.f, !.closes = e.cl]
 
 (* ---------------- reads ---------------- *)
@@ -87,6 +95,11 @@ ChkRead(s,F,e,n) ==
   (IF e.ret < 0 /\ e.ret \notin ErrCodes THEN {"ReadUndocumentedCode"} ELSE {}) \cup
   (IF e.cl # s.closes THEN {"NoCloseBehindCaller"} ELSE {}) \cup
   (IF ~strict THEN {} ELSE
+   IF Loose(s,F) THEN
+     (IF e.ret = OV_HOLE THEN {"IntactStreamNoHole"} ELSE {}) \cup
+     (IF e.ret > 0 /\ ~(e.id >= 0 /\ e.id - e.ta \in {-1,0,1} /\ e.ta - s.pos \in {-2,-1,0,1,2}) THEN {"ReadIdentityHalfRateOddLinks"} ELSE {}) \cup
+     (IF e.ret > 0 /\ e.tella # e.ta + Shl(n, s.hs) THEN {"ReadAdvancesByCount"} ELSE {})
+   ELSE
      IF s.pos >= F.total
      THEN (IF e.ret # 0 THEN {"ReadAtEndReturnsEof"} ELSE {})
      ELSE (IF e.ret = OV_HOLE THEN {"IntactStreamNoHole"} ELSE {}) \cup
@@ -119,7 +132,8 @@ ChkReadF(s,F,e) ==
 
 \* position after a read: believe the observation when the call delivered, so one defect is reported once
 NxtRead(s,F,e,n) ==
-  IF e.ret > 0 THEN [s EXCEPT !.pos = e.tella,
+  IF s.pos < 0 THEN s           \* unknown position: only a successful seek re-establishes it
+  ELSE IF e.ret > 0 THEN [s EXCEPT !.pos = IF e.tella >= 0 THEN e.tella ELSE -1,
                               !.lap = IF s.lap > n THEN s.lap - n ELSE 0]
   ELSE IF e.ret = 0 THEN s
   ELSE IF e.ret = OV_HOLE THEN s   \* position after a hole is re-established by the next granule
@@ -163,20 +177,23 @@ ChkSeek(s,F,k,e,flen) ==
   (IF ~s.sk /\ s.open /\ e.ret = 0 THEN {"SeekOnStreamMustFail"} ELSE {}) \cup
   (IF ~(Strict(s,F) /\ s.sk) THEN {} ELSE
      IF InRange(F,k,e,flen)
-     THEN IF e.ret = 0 THEN (IF LandsOK(s,F,k,e) THEN {} ELSE {"SeekLandsWhereSpecified"})
+     THEN IF e.ret = 0 THEN (IF LandsOK(s,F,k,e) \/ (Loose(s,F) /\ Plain(k) \in {"PcmSeek","TimeSeek"} /\ e.tell - e.pos \in {-2,-1,0,1}) THEN {} ELSE {"SeekLandsWhereSpecified"})
           ELSE IF IsLap(k) /\ e.ret = OV_EOF /\ LapEofAllowed(s,F,k,e) THEN {}
           ELSE {"InRangeSeekSucceeds"}
      ELSE (IF e.ret = 0 THEN {"OutOfRangeSeekRejected"} ELSE {}) \cup
-          (IF e.ret # 0 /\ s.pos >= 0 /\ ~IsLap(k) /\ (e.tell # s.pos \/ e.rs # e.rs0 \/ e.cur # e.cur0)
+          (IF e.ret # 0 /\ s.pos >= 0 /\ ~IsLap(k) /\ (e.tell # e.t0 \/ (~Loose(s,F) /\ e.tell # s.pos) \/ e.rs # e.rs0 \/ e.cur # e.cur0)
              THEN {"RejectedSeekLeavesPosition"} ELSE {}))
 
 LapLen(s,F,e) ==   \* half a short block of the old and of the new link, whichever is smaller, in returned samples
-  LET lo == IF s.pos >= 0 THEN LinkOf(F, s.pos) ELSE LinkOf(F, 0)
+  LET lo == IF e.cur0 + 1 \in 1..F.nl THEN e.cur0 + 1          \* the link the handle was decoding (at a link end: the one that ends there)
+            ELSE IF s.pos >= 0 THEN LinkOf(F, s.pos) ELSE LinkOf(F, 0)
       ln == IF e.tell >= 0 THEN LinkOf(F, e.tell) ELSE lo
   IN Min({Shr(F.links[lo].bs0, s.hs), Shr(F.links[ln].bs0, s.hs)}) \div 2
 
 NxtSeek(s,F,k,e,flen) ==
-  IF e.ret = 0 THEN [s EXCEPT !.pos = e.tell, !.lap = IF IsLap(k) THEN LapLen(s,F,e) ELSE 0, !.recov = FALSE]
+  IF e.ret = 0 THEN [s EXCEPT !.pos = IF e.tell >= 0 THEN e.tell ELSE -1, !.lap = IF IsLap(k) THEN LapLen(s,F,e) ELSE 0]
+  ELSE IF s.pos < 0 THEN s                          \* an unknown position is only re-established by a seek that succeeds
+  ELSE IF ~s.sk /\ IsLap(k) THEN [s EXCEPT !.pos = -1, !.lap = 0]   \* a lapped seek refused on a stream has already consumed its lap samples
   ELSE IF e.tell >= 0 /\ e.rs >= OPENED THEN [s EXCEPT !.pos = e.tell, !.lap = IF e.tell = s.pos /\ ~IsLap(k) THEN s.lap ELSE 0]
   ELSE [s EXCEPT !.pos = -1, !.lap = 0]
 
@@ -185,17 +202,19 @@ ChkHalfRate(s,F,e) ==
   (IF e.ret # 0 /\ e.ret \notin ErrCodes THEN {"HalfRateUndocumentedCode"} ELSE {}) \cup
   (IF e.cl # s.closes THEN {"NoCloseBehindCaller"} ELSE {}) \cup
   (IF ~Strict(s,F) THEN {} ELSE
-     IF e.flag # 0 /\ ~HrAllowed(F)
+     IF e.flag # 0 /\ ~(IF s.sk THEN HrAllowed(F) ELSE F.links[1].hrok)   \* a stream only knows its current (first) link
      THEN (IF e.ret = 0 THEN {"HalfRateRefusedFor64"} ELSE {}) \cup
           (IF e.hs # 0 THEN {"RefusalLeavesFullRate"} ELSE {}) \cup
           (IF s.sk /\ s.pos >= 0 /\ e.tell # s.pos THEN {"RefusalKeepsPosition"} ELSE {})
      ELSE (IF e.ret # 0 THEN {"HalfRateAccepted"} ELSE {}) \cup
           (IF e.ret = 0 /\ e.hs # (IF e.flag # 0 THEN 1 ELSE 0) THEN {"HalfRateFlagTakesEffect"} ELSE {}) \cup
-          (IF e.ret = 0 /\ s.sk /\ s.pos >= 0 /\ e.tell \notin {s.pos, Even(s.pos,1)} THEN {"HalfRateKeepsPosition"} ELSE {}))
+          (IF e.ret = 0 /\ s.sk /\ s.pos >= 0 /\ s.pos <= F.total /\ HsExact(F) /\ e.tell \notin {s.pos, Even(s.pos,1)} THEN {"HalfRateKeepsPosition"} ELSE {}) \cup
+          (IF e.ret = 0 /\ s.sk /\ s.pos >= 0 /\ s.pos <= F.total /\ ~HsExact(F) /\ e.tell - s.pos \notin {-2,-1,0} THEN {"HalfRateKeepsPosition"} ELSE {}))
 
 NxtHalfRate(s,F,e) ==
   [s EXCEPT !.hs = IF e.hs \in {0,1} THEN e.hs ELSE s.hs,
-            !.pos = IF s.sk THEN (IF e.tell >= 0 THEN e.tell ELSE -1) ELSE s.pos,
+            !.pos = IF s.sk THEN (IF e.tell >= 0 THEN e.tell ELSE -1)
+                    ELSE IF e.rs0 > STREAMSET THEN -1 ELSE s.pos,     \* a mid-stream toggle on a stream drops the decoder state (documented)
             !.lap = 0]
 
 (* ---------------- crosslap (h1 old, h2 new) ---------------- *)
@@ -205,7 +224,7 @@ ChkCrosslap(s1,F1,s2,F2,e) ==
      IF e.ret = 0
      THEN (IF s2.sk /\ e.tell # s2.pos THEN {"CrosslapKeepsSecondPosition"} ELSE {}) \cup
           (IF s1.sk /\ ~(s1.pos <= e.t11 /\ e.t11 <= s1.pos + F1.links[LinkOf(F1,s1.pos)].bs0 \div 2) THEN {"CrosslapConsumesAtMostLap"} ELSE {})
-     ELSE (IF e.ret = OV_EOF /\ (s2.pos >= F2.total \/ (e.rs1 < INITSET /\ s1.pos >= F1.total)) THEN {} ELSE {"CrosslapSucceeds"}))
+     ELSE (IF e.ret = OV_EOF /\ (s2.pos \in LinkEnds(F2) \/ (e.rs1 < INITSET /\ s1.pos \in LinkEnds(F1))) THEN {} ELSE {"CrosslapSucceeds"}))   \* lapping never crosses a link: nothing to lap at a link end
 
 (* ---------------- tell / query / clear ---------------- *)
 ChkTell(s,F,e) ==
